@@ -369,7 +369,7 @@ func runC04(c *ctx) {
 	c.count("corpus:size=" + strconv.Itoa(len(corpus)))
 	nGen, nHTTP := 6000, 2*len(c04Attacks)+20
 	if c.thorough() {
-		nGen, nHTTP = 150000, 4000
+		nGen, nHTTP = 150000, 2500
 	}
 	next := func(i int) string {
 		if i < len(corpus) {
